@@ -24,6 +24,7 @@ type extState struct {
 
 	// C13
 	leaseCuts []*leaseCut
+	cutM      map[[2]string]bool
 
 	// C14
 	pvIso map[string]*pvIso
@@ -90,6 +91,7 @@ func (x *extState) init() {
 	x.pendingRestore = map[instKey]*restoreOp{}
 	x.verifies = map[uint64]*verifyOp{}
 	x.verByInst = map[instKey][]*verifyOp{}
+	x.cutM = map[[2]string]bool{}
 	x.recent = map[instKey][]recentAck{}
 	x.pvIso = map[string]*pvIso{}
 }
